@@ -927,6 +927,11 @@ class Gen(object):
                 path.hyps.append(('implies', atom(b), ('forall', [kq], ('implies', atom(rng), atom(z3.Select(l.arr, kq))))))
                 path.hyps.append(('implies', atom(z3.Not(b)), ('exists', [kq], atom(z3.And(rng, z3.Not(z3.Select(l.arr, kq)))))))
                 return b
+            if f == 'getattr' and len(n.args) in (2, 3) and isinstance(n.args[1], ast.Constant):
+                o = ev(n.args[0])
+                if isinstance(o, SObject) and n.args[1].value in o.attrs:
+                    return o.attrs[n.args[1].value]
+                raise Unsupported('getattr of an undeclared attribute')
             if f == 'hasattr' and len(n.args) == 2 and isinstance(n.args[1], ast.Constant):
                 o = ev(n.args[0])
                 if isinstance(o, SObject) and n.args[1].value in o.attrs:
